@@ -106,6 +106,43 @@ CHECKS.update({
     },
 })
 
+_STORE_NOTE = ('shelve back end only (db/post/* needs a PostgreSQL server; none in the sandbox); the kernel socket is '
+               'replaced by an in-process loopback feeding a real comms.Worker protocol on the deterministic reactor; '
+               'md5sum/sha1sum replaced by hashlib with identical output (validated against the real tools each run)')
+CHECKS.update({
+    'C06': {
+        'level': 'exploration', 'design_ref': 'DESIGN.md section 3 (C06)',
+        'technique': 'bounded exhaustive enumeration of store contents x load requests against a reference dictionary',
+        'text': 'Every subset (512) of a 9-entry universe (runs, targets, authors, algorithm/state-vector/value version '
+        'variants, partial state vector, in-place overwrite) written through the real Interface.update; on each store '
+        'and after single mutations (reopen from disk, add target, overwrite, remove) every load in runs x targets x '
+        'algorithms x version configurations goes through the real Dataset.load and every slot is compared with a '
+        'reference dictionary (exact run, else highest run of the same identity, else the same sentinel object).',
+        'note': _STORE_NOTE,
+    },
+    'C07': {
+        'level': 'fault_enumeration', 'design_ref': 'DESIGN.md section 3 (C07)',
+        'technique': 'exhaustive update histories + crash injected before every mutating file-system call of an update (fork + profile hook), recovery from disk',
+        'text': 'Crash-free: every sequence of <=3 (thorough 4) updates with repeating contents; after each: novelty flag == '
+        'digest absent before, one file per distinct content, every file re-hashes to its name, every catalogue value '
+        'names an existing file, staging empty. Crash: for each selected history the last update is re-run in a forked '
+        'child on a copy of the store directory and killed before its k-th mutating posix/_io call for every k; a '
+        'second child re-opens from disk: catalogue opens, no entry refers to a missing file, the update is repeated '
+        'and the oracle re-checked.',
+        'note': _STORE_NOTE + '; process-crash model (completed system calls persist, user-space buffers are lost); '
+        'staging and store on one file system; read-only calls are merged with the next mutating call (same disk state).',
+    },
+    'C08': {
+        'level': 'exploration', 'design_ref': 'DESIGN.md section 3 (C08)',
+        'technique': 'bounded exhaustive enumeration of store contents with prefix-colliding names x name-addressed operations against an exact-name reference',
+        'text': 'Every subset (256) of an 8-key universe with prefix-colliding names, 2 insertion orders, 3 registration '
+        'paths; per store: name/id bijection, gap-free ids, id stability, chain resolution, next run id, all again '
+        'after close/reopen from disk; then 11 removes, every trace and every version reset compared with a reference '
+        'computed on exact name equality.',
+        'note': _STORE_NOTE,
+    },
+})
+
 _PENDING = 'check not built yet in this session (planned in DESIGN.md); will move to checks when it exists'
 NOT_APPLICABLE = {
     pid: _PENDING
